@@ -19,3 +19,13 @@ func (Engine) SimplifyStep(prop string, s json.RawMessage) []json.RawMessage {
 func (Engine) SimplifyConfig(prop string, c json.RawMessage) []json.RawMessage {
 	return SimplifyConfig(c)
 }
+
+// Resamples: C01 divergences may depend on native map order / goroutine scheduling, which the
+// replay re-samples by executing the recorded plan again (each execution samples fresh orders on
+// every replica).
+func (Engine) Resamples(prop string) int {
+	if prop == "C01" {
+		return 24
+	}
+	return 0
+}
